@@ -2,6 +2,7 @@ package main
 
 import (
 	"bytes"
+	"encoding/hex"
 	"errors"
 	"fmt"
 	"io"
@@ -26,7 +27,7 @@ import (
 func init() {
 	register(stream{
 		name: "token",
-		rule: "envelopes built by the harness itself (go-ipld-prime + libp2p, not go-ucan's envelope code) and offered to token.FromSealed / delegation.FromSealed / invocation.FromSealed and the DAG-JSON equivalents: (fields) every payload field of a valid delegation and invocation × {dropped, null, retyped to each IPLD kind, out-of-range, empty, malformed DID/command/policy/selector/pattern, short nonce} and an added unknown key, each CORRECTLY RE-SIGNED; (envelope) wrong, foreign or missing varsig header, extra SigPayload entry, extra outer element, swapped and unknown tags, signature by another key, truncated/empty/non-bytes signature, every payload field and the varsig header rewritten while KEEPING THE OLD SIGNATURE (after the genuine token was decoded), header variants with foreign hash/encoding/segments, a genuine and a forged token decoded from 8 goroutines at once; (bits) every single-bit flip of a sealed Ed25519 delegation and invocation; (values) every Go integer type at its boundary values through literal.Any (directly and nested), args.Add and meta.Add — stored exactly or rejected; (roundtrip) tokens from the constructors under every option combination × Ed25519/secp256k1/P-256/P-384/P-521 (RSA thorough) × {DAG-CBOR, DAG-JSON} × {generic, typed}. Compared: accept/reject and every decoded field. Added later: signatures of 257…65537 bytes (junk, padded, doubled); int64 extremes and pre-1970 instants in policy, arguments, metadata and time fields; round-trip option bits for instants at year 1/1000/1969, audience = subject and floats without fraction (the last is the open finding F-C07-dagjson-integral-float, in a class of its own); stream reads right after failed stream reads; a token naming issuer A but signed by B decoded while A's and B's keys are extracted concurrently (rounds bounded by time); ready-made IPLD nodes with out-of-range integers alone, in IPLD containers and in Go containers through Args.Add / literal.Any / WithArgument / WithMeta (kept ⇒ in range; seals ⇒ unseals); constructor well-formedness under unusual nonce options; command text assembled by New/Join stays refused, valid commands with empty segments are kept byte for byte. Non-trivial = all but the unmodified fixtures. Distinct = distinct protocol lines.",
+		rule: "envelopes built by the harness itself (go-ipld-prime + libp2p, not go-ucan's envelope code) and offered to token.FromSealed / delegation.FromSealed / invocation.FromSealed and the DAG-JSON equivalents: (fields) every payload field of a valid delegation and invocation × {dropped, null, retyped to each IPLD kind, out-of-range, empty, malformed DID/command/policy/selector/pattern, short nonce} and an added unknown key, each CORRECTLY RE-SIGNED; (envelope) wrong, foreign or missing varsig header, extra SigPayload entry, extra outer element, swapped and unknown tags, signature by another key, truncated/empty/non-bytes signature, every payload field and the varsig header rewritten while KEEPING THE OLD SIGNATURE (after the genuine token was decoded), header variants with foreign hash/encoding/segments, a genuine and a forged token decoded from 8 goroutines at once; (bits) every single-bit flip of a sealed Ed25519 delegation and invocation; (values) every Go integer type at its boundary values through literal.Any (directly and nested), args.Add and meta.Add — stored exactly or rejected; (roundtrip) tokens from the constructors under every option combination × Ed25519/secp256k1/P-256/P-384/P-521 (RSA thorough) × {DAG-CBOR, DAG-JSON} × {generic, typed}. Compared: accept/reject and every decoded field. Added later: signatures of 257…65537 bytes (junk, padded, doubled); int64 extremes and pre-1970 instants in policy, arguments, metadata and time fields; round-trip option bits for instants at year 1/1000/1969, audience = subject and floats without fraction (the last is the open finding F-C07-dagjson-integral-float, in a class of its own); stream reads right after failed stream reads; a token naming issuer A but signed by B decoded while A's and B's keys are extracted concurrently (rounds bounded by time); ready-made IPLD nodes with out-of-range integers alone, in IPLD containers and in Go containers through Args.Add / literal.Any / WithArgument / WithMeta (kept ⇒ in range; seals ⇒ unseals); constructor well-formedness under unusual nonce options; command text assembled by New/Join stays refused, valid commands with empty segments are kept byte for byte. For EVERY key algorithm (RSA included) at every tier: signature of another key, empty, truncated, one-byte, junk and all-zero signatures, the genuine signature over a changed field, an empty varsig header, and a signature made over a non-canonical serialization that is shipped as such; the FromDagCbor / FromDagCborReader entry points (no canonical-form check of their own) on the same bytes; instants exactly at the Unix epoch in round trips. Non-trivial = all but the unmodified fixtures. Distinct = distinct protocol lines.",
 		run:  runTokenStream,
 		eval: evalToken,
 		cmp: func(line, g, m string) string {
@@ -276,6 +277,54 @@ func evalToken(line string) (out string, rd string) {
 			}
 			return dumpInv(t), rd
 		}
+	case "tok.cbor":
+		// the FromDagCbor entry points, bytes and reader variants (which must agree)
+		b := []byte(unhx(f[2]))
+		if n, err := ipld.Decode(b, dagcbor.Decode); err == nil {
+			rd += " " + dumpNode(n)
+		}
+		var viaBytes, viaReader string
+		switch f[1] {
+		case "any":
+			if t, err := token.FromDagCbor(b); err != nil {
+				viaBytes = "err"
+			} else {
+				viaBytes = dumpAny(t)
+			}
+			if t, err := token.FromDagCborReader(bytes.NewReader(b)); err != nil {
+				viaReader = "err"
+			} else {
+				viaReader = dumpAny(t)
+			}
+		case "dlg":
+			if t, err := delegation.FromDagCbor(b); err != nil {
+				viaBytes = "err"
+			} else {
+				viaBytes = dumpDlg(t)
+			}
+			if t, err := delegation.FromDagCborReader(bytes.NewReader(b)); err != nil {
+				viaReader = "err"
+			} else {
+				viaReader = dumpDlg(t)
+			}
+		case "inv":
+			if t, err := invocation.FromDagCbor(b); err != nil {
+				viaBytes = "err"
+			} else {
+				viaBytes = dumpInv(t)
+			}
+			if t, err := invocation.FromDagCborReader(bytes.NewReader(b)); err != nil {
+				viaReader = "err"
+			} else {
+				viaReader = dumpInv(t)
+			}
+		default:
+			return "bad-line", rd
+		}
+		if viaBytes != viaReader {
+			return "FromDagCbor and FromDagCborReader differ: " + viaBytes + " ≠ " + viaReader, rd
+		}
+		return viaBytes, rd
 	case "tok.json":
 		n, err := parseNode(f[2])
 		if err != nil {
@@ -392,6 +441,15 @@ func (c *ctx) emitSealed(decoders []string, b []byte, tag string) {
 		c.emitG(fmt.Sprintf("tok.sealed %s %s %s %s %s %s", d, hx(b), o.lower, o.sig, o.key, o.letters), "token."+tag,
 			func(string) bool { return true }, func(g string) []string { return []string{tag + ":" + strings.Fields(g)[0]} })
 	}
+	if err == nil && !strings.HasPrefix(tag, "bitflip") && (strings.Contains(tag, "noncanonical") || strings.HasPrefix(tag, "envelope:") || c.rng.Chance(1, 3)) {
+		// the FromDagCbor entry points (no canonical-form check of their own) get the same bytes. Not the bit flips: a flipped bit
+		// can produce an item (a half-precision float, an indefinite length) that the library's decoder reads and the model's does not;
+		// FromSealed rejects those through its canonical-form check, FromDagCbor need not.
+		for _, d := range decoders {
+			c.emitG(fmt.Sprintf("tok.cbor %s %s %s %s %s %s", d, hx(b), o.lower, o.sig, o.key, o.letters), "token."+tag,
+				func(string) bool { return true }, func(g string) []string { return []string{tag + "-cbor:" + strings.Fields(g)[0]} })
+		}
+	}
 	if err == nil && c.rng.Chance(1, 4) && stringsValidUTF8(n) {
 		// the DAG-JSON entry points get the same envelope (bytes become {"/":{"bytes":…}} in JSON text)
 		var buf bytes.Buffer
@@ -409,7 +467,7 @@ func (c *ctx) emitSealed(decoders []string, b []byte, tag string) {
 
 func runTokenStream(c *ctx) error {
 	all := []string{"any", "dlg", "inv"}
-	algs := []string{"ed25519", "secp256k1", "p256"}
+	algs := []string{"ed25519", "secp256k1", "p256", "rsa"}
 	if c.thoro {
 		algs = append(algs, "p384", "p521")
 	}
@@ -429,8 +487,10 @@ func runTokenStream(c *ctx) error {
 			}
 			c.emitSealed(all, b, "honest")
 			if ai > 0 && !c.thoro {
+				c.envelopeCore(all, alg, k, hdr, kind.tag, kind.fs, mk)
 				continue
 			}
+			c.envelopeCore(all, alg, k, hdr, kind.tag, kind.fs, mk)
 			// (fields) every field × every mutation, correctly re-signed
 			for i, f := range kind.fs {
 				mut := func(fs []pfield, tag string) {
@@ -557,7 +617,7 @@ func runTokenStream(c *ctx) error {
 	for _, alg := range rtAlgs {
 		for _, kind := range []string{"dlg", "inv"} {
 			// bits 7–9 (early instants, audience = subject, integral floats): a few masks per algorithm
-			for _, m := range []int{128, 129, 256, 257, 384, 128 + 16, 256 + 8, 512, 513, 512 + 2 + 4} {
+			for _, m := range []int{128, 129, 256, 257, 384, 128 + 16, 256 + 8, 512, 513, 512 + 2 + 4, 1024, 1025, 1026, 1024 + 3} {
 				if !c.thoro && alg != "ed25519" && alg != "p256" {
 					continue
 				}
@@ -580,6 +640,91 @@ func runTokenStream(c *ctx) error {
 		}
 	}
 	return nil
+}
+
+// envelopeCore: the signature and header cases every key algorithm gets at every tier — a failed verification is reported
+// differently by each algorithm's library (a false result, or an error), and each must end in a rejection: the signature of
+// another key, an empty, a truncated and a junk signature, the genuine signature over a payload that has since changed, an
+// empty varsig header, and a signature made over a NON-canonical serialization of the payload (keys in another order) that is
+// shipped in exactly that serialization.
+func (c *ctx) envelopeCore(all []string, alg string, k keyed, hdr, tag string, fs []pfield, mk func(string, []pfield) string) {
+	other := keyFor("ed25519", 7)
+	sp := mk(tag, fs)
+	origSP, err := parseNode(sp)
+	if err != nil {
+		return
+	}
+	oldSig, err := k.priv.Sign(nodeBytes(origSP))
+	if err != nil {
+		return
+	}
+	keepSig := func([]byte) string { return "b" + hxsRaw(string(oldSig)) }
+	for _, ec := range []struct {
+		name, sp string
+		key      crypto.PrivKey
+		mg       func([]byte) string
+	}{
+		{"sig-other-key", sp, other.priv, nil},
+		{"sig-empty", sp, k.priv, func([]byte) string { return "b" }},
+		{"sig-truncated", sp, k.priv, func(x []byte) string { return "b" + hxsRaw(string(x[:len(x)-1])) }},
+		{"sig-one-byte", sp, k.priv, func(x []byte) string { return "b30" }},
+		{"sig-junk-64", sp, k.priv, func(x []byte) string { return "b" + strings.Repeat("5a", 64) }},
+		{"sig-zeroes", sp, k.priv, func(x []byte) string { return "b" + strings.Repeat("00", len(x)) }},
+		{"hdr-empty", "m(68:b," + tag + ":" + payloadText(fs) + ")", k.priv, nil},
+		{"hdr-empty-old-sig", "m(68:b," + tag + ":" + payloadText(fs) + ")", k.priv, keepSig},
+	} {
+		if b, err := sealText(ec.sp, ec.key, ec.mg, ""); err == nil {
+			c.emitSealed(all, b, "envelope:"+ec.name+":"+alg)
+		}
+	}
+	for i, f := range fs {
+		for j, nv := range oldSigRewrites(f.k, f.v) {
+			if j > 0 {
+				break
+			}
+			g := append([]pfield(nil), fs...)
+			g[i].v = nv
+			if b, err := sealText(mk(tag, g), k.priv, keepSig, ""); err == nil {
+				c.emitSealed(all, b, "envelope:sig-old-field:"+f.k+":"+alg)
+			}
+		}
+	}
+	// signed over a non-canonical serialization: the entries of the SigPayload, or of the payload, in reverse order
+	hb, _ := hex.DecodeString(strings.TrimPrefix(hdr, "b"))
+	tagText, _ := hex.DecodeString(tag)
+	pn, err := parseNode(payloadText(fs))
+	if err != nil {
+		return
+	}
+	canonPayload := nodeBytes(pn)
+	var revPayload bytes.Buffer
+	{
+		// the payload map with its entries written last to first
+		revPayload.Write(cborHead(5, uint64(len(fs))))
+		type ent struct{ k, v []byte }
+		var es []ent
+		it := pn.MapIterator()
+		for !it.Done() {
+			kn, vn, _ := it.Next()
+			ks, _ := kn.AsString()
+			es = append(es, ent{cborText(ks), nodeBytes(vn)})
+		}
+		for i := len(es) - 1; i >= 0; i-- {
+			revPayload.Write(es[i].k)
+			revPayload.Write(es[i].v)
+		}
+	}
+	for name, spRaw := range map[string][]byte{
+		"sp-order":      append(append(append(append([]byte{0xa2}, cborText(string(tagText))...), canonPayload...), cborText("h")...), cborBin(hb)...),
+		"payload-order": append(append(append(append([]byte{0xa2}, cborText("h")...), cborBin(hb)...), cborText(string(tagText))...), revPayload.Bytes()...),
+	} {
+		sig, err := k.priv.Sign(spRaw)
+		if err != nil {
+			continue
+		}
+		env := append(append([]byte{0x82}, cborBin(sig)...), spRaw...)
+		c.emitSealed(all, env, "envelope:sig-over-noncanonical:"+name+":"+alg)
+	}
 }
 
 // oldSigRewrites: values that differ from the signed one (same length where possible, so that byte-level
@@ -808,6 +953,7 @@ func tokRoundTrip(kind, alg, ms string) string {
 		if opt(7) {
 			opts = append(opts, delegation.WithNotBefore(time.Unix(9007199254740991, 0)))
 		}
+		// (bit 10, instants exactly at the Unix epoch, is for invocations: the delegation constructors refuse bounds in the past)
 		var t *delegation.Token
 		if opt(6) {
 			// anything the constructors accept must survive: a time bound beyond 2^53 s, a command that was
@@ -878,6 +1024,14 @@ func tokRoundTrip(kind, alg, ms string) string {
 				opts = append(opts, invocation.WithInvokedAt(time.Time{}), invocation.WithExpiration(time.Date(1000, 1, 1, 0, 0, 0, 0, time.UTC)))
 			} else {
 				opts = append(opts, invocation.WithExpiration(time.Time{}), invocation.WithInvokedAt(time.Unix(-1, 0)))
+			}
+		}
+		if opt(10) {
+			// instants exactly at the Unix epoch
+			if mask%2 == 0 {
+				opts = append(opts, invocation.WithInvokedAt(time.Unix(0, 0)))
+			} else {
+				opts = append(opts, invocation.WithInvokedAt(time.Unix(0, 0)), invocation.WithExpiration(time.Unix(0, 0)))
 			}
 		}
 		if opt(8) {
